@@ -15,6 +15,7 @@
    connection whose prefetched bytes are the list, and the number of bytes it asked make() for
    (fixed sizes and sizes taken from length fields; constant-size bookkeeping is not counted).
    Go partiality is explicit: slice/index give Panic, uint32 arithmetic wraps.  No proofs here. *)
+From Coq Require Import String.
 From Coq Require Import List NArith ZArith Bool Arith.
 From Coq.Strings Require Import Byte.
 From L4 Require Import Hex.
@@ -407,7 +408,7 @@ Definition pg_wf (m : pg_msg) : Prop :=
 
 (* TLS record (RFC 8446 5.1): ContentType, legacy_record_version, uint16 length, fragment *)
 Record tls_rec := { tr_type : byte; tr_ver : list byte; tr_body : list byte }.
-Definition tls_typed (m : tls_rec) : Prop := length (tr_ver m) = 2%nat /\ (length (tr_body m) < 65536)%nat.
+Definition tls_typed (m : tls_rec) : Prop := length (tr_ver m) = 2%nat /\ (N.of_nat (length (tr_body m)) < 65536)%N.
 Definition tls_encode (m : tls_rec) : list byte :=
   [tr_type m] ++ tr_ver m ++ N_to_be 2 (N.of_nat (length (tr_body m))) ++ tr_body m.
 Definition tls_wf (m : tls_rec) : Prop := bN (tr_type m) = 22%N.
